@@ -335,6 +335,10 @@ def run(ctx):
     ctx.rule("R1.logret", "a failing log-file operation (ncbbio_sharedfile_*, and every driver function that can return its "
              "status) makes each calling driver function return non-zero on all paths after the call")
     check_logret(ctx, prog)
+    from rules import r10echar
+    ctx.rule("R10.echar", "flexible puts through the burst-buffer driver: the decoded element type reaches the log only behind the "
+             "text/numeric test (NC_ECHAR), as in the default driver (library + burst-buffer sources)")
+    r10echar.check(ctx, ctx.program(groups=["lib", "bb"]), "R10.echar", 7)
     from rules import r8bbwait
     ctx.rule("R8.bbwait", "ncbbio_wait: each named request is completed once by the driver that owns it (even ids: the log's put "
              "list, odd ids: ncmpio, halved), NC_REQ_NULL completes nothing, statuses follow the caller's list order, the list is "
